@@ -222,6 +222,7 @@ structure Oracles where
   parseIP : Bytes → Option IPAddr                -- net.ParseIP
   ipStr : Option (List UInt8) → Bytes            -- IP.String() (none = nil IP)
   parseURL : Bytes → Option URLParts             -- url.Parse
+  parseQuery : Bytes → List (Bytes × List Bytes)  -- url.ParseQuery (what parses; keys distinct and sorted)
   cookies : List Bytes → List Cookie             -- (&http.Request{Header: {"Cookie": l}}).Cookies()
   reSpans : Bytes → List Span                    -- matches ReplaceAllString replaces, with expansions
 
@@ -355,9 +356,39 @@ def encodeQuery (q : List (Bytes × List Bytes)) : Bytes :=
 def urlString (u : URLParts) (rawq : Bytes) : Bytes :=
   u.pre ++ (if u.force || !rawq.isEmpty then 63 :: rawq else []) ++ u.post
 
+/-- strings.Cut(s, c): text before and after the first `c`; none = not found -/
+def cutAt (c : UInt8) : Bytes → Option (Bytes × Bytes)
+  | [] => none
+  | b :: r => if b = c then some ([], r) else
+    match cutAt c r with
+    | some (x, y) => some (b :: x, y)
+    | none => none
+
+/-- the part after the first `?`: raw query up to a `#`, and the rest -/
+def splitQuery (o : Oracles) (before after : Bytes) : URLParts :=
+  match cutAt 35 after with
+  | none => ⟨before, [], after.isEmpty, o.parseQuery after⟩
+  | some (rawq, frag) => ⟨before, 35 :: frag, rawq.isEmpty, o.parseQuery rawq⟩
+
+/-- what `processQueryString` works on when `url.Parse` fails: the value cut at its first `?`;
+    none = there is no `?` -/
+def fallbackParts (o : Oracles) (s : Bytes) : Option URLParts :=
+  match cutAt 63 s with
+  | none => none
+  | some (before, after) => some (splitQuery o before after)
+
 def queryStr (o : Oracles) (acts : List Act) (s : Bytes) : Bytes :=
   match o.parseURL s with
-  | none => s                                    -- `if err != nil { return s }`
+  | some u => urlString u (encodeQuery (applyActs o.H acts u.q))
+  | none =>
+    match fallbackParts o s with
+    | none => s                                  -- `if !found { return s }`
+    | some u => urlString u (encodeQuery (applyActs o.H acts u.q))
+
+/-- the same BEFORE the fallback fix: `if err != nil { return s }` -/
+def queryStrOld (o : Oracles) (acts : List Act) (s : Bytes) : Bytes :=
+  match o.parseURL s with
+  | none => s
   | some u => urlString u (encodeQuery (applyActs o.H acts u.q))
 
 /-! cookie -/
